@@ -20,17 +20,20 @@ DEFAULT_CAP = None  # tensora's own 1024*1024
 
 PARAMS = {
     "quick": dict(formats_per_assignment=4, tries=60, inputs=6, caps=[1, 2], c_fraction=4, wide_inputs=24,
-                  gen_kernels=6),
+                  gen_kernels=6, random_assignments=40, random_kernels=40),
     "thorough": dict(formats_per_assignment=24, tries=400, inputs=16, caps=[1, 2, 3, DEFAULT_CAP], c_fraction=1,
-                     wide_inputs=80, gen_kernels=40),
+                     wide_inputs=80, gen_kernels=40, random_assignments=600, random_kernels=600),
 }
 
 
 def format_choices(asg, rng: random.Random, want: int, tries: int):
-    """Yield format assignments (name -> format string): all-dense, all-compressed, then seeded random ones."""
+    """Yield format assignments (name -> format string): all-dense, all-compressed, then seeded random ones whose
+    TARGET cycles through every dense/compressed pattern (so that each pattern of the output is met across a
+    handful of choices) with random mode orderings; the other tensors are drawn uniformly."""
     orders = exprs.tensor_orders(asg)
     names = list(orders)
-    per = [kernels.all_formats(orders[n]) for n in names]
+    target = asg["target"]
+    per = {n: kernels.all_formats(orders[n]) for n in names}
     seen = set()
 
     def nat(ch):
@@ -41,19 +44,17 @@ def format_choices(asg, rng: random.Random, want: int, tries: int):
         if key not in seen:
             seen.add(key)
             yield fm
-    total = 1
-    for p in per:
-        total *= len(p)
-    if total <= tries:
-        combos = list(itertools.product(*per))
-        rng.shuffle(combos)
-    else:
-        combos = (tuple(rng.choice(p) for p in per) for _ in range(tries))
-    for combo in combos:
-        if combo in seen:
+    patterns = ["".join(p) for p in itertools.product("ds", repeat=orders[target])]
+    rng.shuffle(patterns)
+    by_pattern = {p: [f for f in per[target] if "".join(c for c in f if c in "ds") == p] for p in patterns}
+    for t in range(tries):
+        pat = patterns[t % len(patterns)]
+        combo = {n: (rng.choice(by_pattern[pat]) if n == target else rng.choice(per[n])) for n in names}
+        key = tuple(combo.values())
+        if key in seen:
             continue
-        seen.add(combo)
-        yield dict(zip(names, combo))
+        seen.add(key)
+        yield combo
 
 
 def has_sparse_output(k: kernels.Kernel) -> bool:
@@ -167,11 +168,31 @@ def _run(t: str, s: int) -> Result:
 
     # ---- stage 0: requests -> real IR ------------------------------------------------------------------------------
     skipped = 0
-    for group, text in CATALOGUE + BROADCAST_TARGET:
+    extra = []
+    try:
+        from .checks import c08
+
+        rp = c08.gen(dict(pool='{"b", "c", "d"}', idx='{"i", "j", "k", "l"}', order=2, leaves=5, lits="TRUE", entries='{"library"}',
+                          allkinds="FALSE", diag="FALSE", spells="{0}", simulate=P["random_assignments"]), s)
+        texts = []
+        for l in rp.lines:
+            if l["text"] not in texts:
+                texts.append(l["text"])
+        rng.shuffle(texts)
+        for text in texts:
+            asg_ = exprs.parse(text)
+            if exprs.has_diagonal(asg_) or exprs.broadcast_target(asg_) or exprs.shape_tags(asg_):
+                continue
+            extra.append(("spec-generated", text))
+            if len(extra) >= P["random_kernels"]:
+                break
+    except MachineryError:
+        raise
+    for group, text in CATALOGUE + BROADCAST_TARGET + extra:
         asg = exprs.parse(text)
         got = 0
         for fm in format_choices(asg, rng, P["formats_per_assignment"], P["tries"]):
-            if got >= P["formats_per_assignment"]:
+            if got >= (2 if group == "spec-generated" else P["formats_per_assignment"]):
                 break
             probe = kernels.compile_kernel(text, fm, ["evaluate"], [], cap=2)
             if probe.error:
@@ -216,7 +237,7 @@ def _run(t: str, s: int) -> Result:
         if len(gen_cases) >= P["gen_kernels"]:
             break
         k, cap, group = kernel_list[ki]
-        if group in ("broadcast-target", "big-literal"):
+        if group in ("broadcast-target", "big-literal", "inexact-literal"):
             continue
         fu = exprs.first_use(k.asg)
         cls = exprs.index_classes(k.asg)
@@ -313,6 +334,8 @@ def _run(t: str, s: int) -> Result:
                 want_dims = [m["dims"][i] for i in k.asg["tidx"]]
                 if o["out"]["dims"] != want_dims:
                     v = "dimensions"
+                elif l["status"] in INCONCLUSIVE and "inexact-literal" in exprs.shape_tags(k.asg):
+                    v = "ok"   # no exact reference exists; the two back ends are still compared bit for bit below
                 elif l["status"] in INCONCLUSIVE:
                     from fractions import Fraction
 
